@@ -1,47 +1,51 @@
 """
 C01 - every engine executes the FlipJump machine semantics exactly.
-(python engines: props/C01py.py; native engine: props/C01c.py once built)
+Deductive: one-op simulation of the two python loops (props/C01py.py) and of the native flat / paged loops
+cut at the code's join labels (props/C01c.py), helper functions against their contracts.
+Bounded (never counted as proved): directed + generated images on every engine vs the executable spec.
 """
 from __future__ import annotations
 
-import importlib
-from typing import Any, List
+from typing import List
 
-from props import C01py
+from bounded import isolated
+from props import C01c, C01py
+from props.native_common import HELPERS, add_native_functions, helper_jobs, native_assumptions, python_functions
 from vc.common import Report, main_wrapper, run_and_discharge
-from vc.pyvc.engine import Engine
 
 PROP = 'C01'
 
 
-def python_jobs(tier: str) -> List[tuple]:
-    jobs: List[tuple] = []
+def jobs(tier: str) -> List[tuple]:
+    th = tier == 'thorough'
+    js: List[tuple] = []
     for w in C01py.WIDTHS:
         for m in ('_bit_address_decompose', '_get_memory_word', '_set_memory_word', 'read_bit', 'write_bit', 'get_word'):
-            jobs.append((C01py.unit_reader_method, (m, w)))
-    for w in (C01py.WIDTHS if tier == 'thorough' else (16,)):
-        for which in ('fast', 'featured'):
-            for lo in (False, True):
-                jobs.append((C01py.unit_run_loop, (which, w, lo)))
-    return jobs
+            js.append((C01py.unit_reader_method, (m, w)))
+    if th:
+        for w in C01py.WIDTHS:
+            for which in ('fast', 'featured'):
+                for lo in (False, True):
+                    js.append((C01py.unit_run_loop, (which, w, lo)))
+    else:
+        js += [(C01py.unit_run_loop, ('fast', 16, False)), (C01py.unit_run_loop, ('featured', 16, True))]
+    for w in (C01c.WIDTHS if th else (32,)):
+        js.append((C01c.unit_loop, ('run_flat_loop_impl', w, 0)))
+        js.append((C01c.unit_loop, ('run_paged_loop_impl', w, 0)))
+    js += helper_jobs(C01c.WIDTHS) if th else [(C01c.unit_helper, (h, 32)) for h in ('mem_read_word', 'mem_flip_bit', 'mem_write_bit', 'mem_get_word_unaligned')]
+    return js
 
 
 def body(tier: str, seed: int) -> int:
     rep = Report(PROP, 'quick' if tier.startswith('replay') else tier, seed, 'proof', f'./check {PROP} --tier {tier}')
-    run_and_discharge(rep, python_jobs(tier))
-    R = importlib.import_module('flipjump.fjm.fjm_reader')
-    FR = importlib.import_module('flipjump.interpreter.fjm_run')
-    for m in ('_bit_address_decompose', '_get_memory_word', '_set_memory_word', 'read_bit', 'write_bit', 'get_word'):
-        rep.add_function('flipjump.fjm.fjm_reader', f'Reader.{m}', Engine.func_lines(getattr(R.Reader, m)), 'w in {8,16,32,64}')
-    for f in ('_run_fast', '_run_featured', '_handle_input', '_handle_output'):
-        rep.add_function('flipjump.interpreter.fjm_run', f, Engine.func_lines(getattr(FR, f)), 'w in {8,16,32,64} x last-ops list {None, deque}; helpers verified inline at their call sites')
-    rep.assume('[A] IODevice.read_bit returns a bool or raises; IODevice.write_bit returns or raises (every call may fail: C18)')
-    rep.assume('[A] deque(maxlen=k).append keeps the last k appended items (the model keeps the whole history)')
-    rep.assume('python ints as 160-bit vectors; every term carries a size bound that excludes wrap-around (checked while generating VCs)')
-    rep.assume('model normalisation: the value array of the symbolic memory dict is 0 at absent keys (unobservable by the code)')
-    rep.trust('pyvc symbolic executor (home-made)')
-    rep.trust('z3 (incl. bit-blast tactic), cvc5')
-    rep.notes.append('one-op simulation of each python loop against spec.machine.SymStep from any state satisfying the loop invariant')
+    run_and_discharge(rep, jobs(tier))
+    python_functions(rep)
+    add_native_functions(rep, ('run_flat_loop_impl', 'run_paged_loop_impl') + HELPERS, 'literal (width, ww) instantiations 8/16/32/64 (quick: 32); paged loop with_ring=0 (the ring clone is under C07)')
+    native_assumptions(rep)
+    rep.notes.append('one-op simulation of every loop against spec.machine.SymStep; native loops cut at flip_word_ready / after_input / after_flip / jump_word_ready; run_measured_loop is covered by the bounded differential runs only')
+    th = tier == 'thorough'
+    isolated.run(rep, 'directed', 0, seed)
+    isolated.run(rep, 'differential', 5000 if th else 400, seed)
     return rep.finish()
 
 
